@@ -240,6 +240,12 @@ func (c *Config) cert(hostname string) (*tls.Certificate, error) {
 		hostname = host
 	}
 
+	// Without SNI and without a fallback host there is no name to issue a
+	// certificate for; refuse instead of answering with an arbitrary one.
+	if hostname == "" {
+		return nil, errors.New("mitm: neither SNI nor hostname provided, failed to build certificate")
+	}
+
 	c.certmu.RLock()
 	tlsc, ok := c.certs[hostname]
 	c.certmu.RUnlock()
